@@ -294,6 +294,8 @@ Inductive reset_violation (c : cinfo) (L : list vloc) (r : reset) : vrule -> Pro
                      reset_violation c L r V_RESET_VARIABLE_REFERENCE
 | RV_tvar_elsewhere : forall t l, r_tvar r = Some t -> lookup_var L t = Some l -> l_cname l <> c_name c ->
                       reset_violation c L r V_RESET_TEST_VARIABLE_REFERENCE
+| RV_var_nowhere : forall t, r_var r = Some t -> lookup_var L t = None -> reset_violation c L r V_RESET_VARIABLE_REFERENCE
+| RV_tvar_nowhere : forall t, r_tvar r = Some t -> lookup_var L t = None -> reset_violation c L r V_RESET_TEST_VARIABLE_REFERENCE
 | RV_notv : r_tv r = [] -> reset_violation c L r V_TEST_VALUE_ELEMENT
 | RV_norv : r_rv r = [] -> reset_violation c L r V_RESET_VALUE_ELEMENT.
 
@@ -305,7 +307,7 @@ Proof.
   intros q m c L r x H. unfold validate_reset.
   destruct (reset_var_check L c (r_var r) V_RESET_VARIABLE_REFERENCE) as [v_now v_end] eqn:Ev.
   destruct (reset_var_check L c (r_tvar r) V_RESET_TEST_VARIABLE_REFERENCE) as [t_now t_end] eqn:Et.
-  destruct H as [[H|[H|H]]|H|H|H|t l H1 H2 H3|t l H1 H2 H3|H|H].
+  destruct H as [[H|[H|H]]|H|H|H|t l H1 H2 H3|t l H1 H2 H3|t H1 H2|t H1 H2|H|H].
   - apply in_or_app. left. apply in_if_not. apply not_xml_name. exact H.
   - do 5 (apply in_or_app; right). apply in_or_app. left. apply in_if_not. apply not_xml_name. exact H.
   - do 6 (apply in_or_app; right). apply in_or_app. left. apply in_if_not. apply not_xml_name. exact H.
@@ -318,6 +320,10 @@ Proof.
   - do 13 (apply in_or_app; right).
     unfold reset_var_check in Et. rewrite H1, H2 in Et. apply String.eqb_neq in H3. rewrite H3 in Et. cbn in Et.
     inversion Et; subst. left. reflexivity.
+  - do 12 (apply in_or_app; right). apply in_or_app. left.
+    unfold reset_var_check in Ev. rewrite H1, H2 in Ev. inversion Ev; subst. left. reflexivity.
+  - do 13 (apply in_or_app; right).
+    unfold reset_var_check in Et. rewrite H1, H2 in Et. inversion Et; subst. left. reflexivity.
   - do 10 (apply in_or_app; right). apply in_or_app. left. rewrite H. left. reflexivity.
   - do 11 (apply in_or_app; right). apply in_or_app. left. rewrite H. left. reflexivity.
 Qed.
@@ -387,7 +393,9 @@ Qed.
 Lemma doc_unsupported : forall q vars units d k y, is_mathml_el "math" d = true -> In k (kids_of d) -> In y (elements k) ->
   is_supported y = false -> In R_MATH_CHILD (val_math_env_q q vars units d).
 Proof.
-  intros q vars units d k y Hd Hk Hy Hs. unfold val_math_env_q. rewrite Hd. cbn [negb]. apply in_or_app. left.
+  intros q vars units d k y Hd Hk Hy Hs. unfold val_math_env_q, val_math_env_gen2. rewrite Hd. cbn [negb]. apply in_or_app. left.
+  change ((fix go (ks : list xml) : list rule := match ks with [] => [] | k :: r => val_supported k ++ go r end) (kids_of d))
+    with (flat_map val_supported (kids_of d)).
   apply in_flat_map. exists k. split; [exact Hk|]. apply (unsupported_cited k y Hy Hs).
 Qed.
 
@@ -396,7 +404,7 @@ Lemma doc_ci_unknown : forall q vars units d ns n attrs kids, is_mathml_el "math
   text_of (first_child kids) <> "" -> ~ In (text_of (first_child kids)) vars ->
   In R_MATH_CI_VARIABLE_REFERENCE (val_math_env_q q vars units d).
 Proof.
-  intros q vars units d ns n attrs kids Hd Hy Hci Ht Hv. unfold val_math_env_q. rewrite Hd. cbn [negb].
+  intros q vars units d ns n attrs kids Hd Hy Hci Ht Hv. unfold val_math_env_q, val_math_env_gen2. rewrite Hd. cbn [negb].
   apply in_or_app. right. apply in_or_app. left. apply (ci_unknown_cited vars units d ns n attrs kids Hy Hci Ht Hv).
 Qed.
 
@@ -404,7 +412,7 @@ Lemma doc_cn_units : forall q vars units d ns n attrs kids r, is_mathml_el "math
   In (Elem ns n attrs kids) (elements d) -> is_mathml_el "cn" (Elem ns n attrs kids) = true ->
   In r (val_cn_units units attrs) -> In r (val_math_env_q q vars units d).
 Proof.
-  intros q vars units d ns n attrs kids r Hd Hy Hcn Hr. unfold val_math_env_q. rewrite Hd. cbn [negb].
+  intros q vars units d ns n attrs kids r Hd Hy Hcn Hr. unfold val_math_env_q, val_math_env_gen2. rewrite Hd. cbn [negb].
   apply in_or_app. right. apply in_or_app. left. apply (cn_units_cited vars units d ns n attrs kids r Hy Hcn Hr).
 Qed.
 
